@@ -1274,6 +1274,95 @@ def validation_cases(ctx, r, spec):
             if mo.get("outcome") == "rejected" or model_protos != real_protos:
                 ctx.disagree("T2:c16.third_pass", f"model third pass ({mo.get('outcome')}) != API.build for settings '{name}'", payload)
 
+ENTRY_KINDS = ["valid", "unknown-method", "unknown-service", "other-version", "dependency-method"]
+
+
+def ordered_lists(ctx, r):
+    """allow-lists of 2-4 entries mixing valid / unknown-method / unknown-service / other-version / dependency-method
+    entries in EVERY order (all sequences of length 2 and 3, a sample of length 4; a list with an invalid entry BEFORE a
+    valid last one is as invalid as one that ends with it), both modes.  The statement: rejected iff SOME entry is invalid."""
+    import itertools
+    from gapic.schema import api as gapi
+    from google.api import client_pb2
+    from google.protobuf import json_format
+    spec = prefix_probe_spec()           # acme.lib.v1 (target) next to acme.lib.v1beta1 in one request
+    files = build_files(spec)
+    api0, _ = genrun.build_api(make_request(spec, files))
+    meths = sorted(api0.all_methods)
+    valid = [m for m in meths if m.startswith(PKG + ".")]
+    g = Graph(api0)
+    gj = g.json()
+
+    def entry(kind, i):
+        if kind == "valid":
+            return valid[i % len(valid)]
+        if kind == "unknown-method":
+            return f"{PKG}.Library.PurgeBooks{i}"
+        if kind == "unknown-service":
+            return f"{PKG}.Archive{i}.GetBook"
+        if kind == "other-version":
+            return "acme.lib.v1beta1.Library.GetThing"
+        return "google.longrunning.Operations.GetOperation"
+    seqs = [q for n in (2, 3) for q in itertools.product(ENTRY_KINDS, repeat=n)]
+    four = list(itertools.product(ENTRY_KINDS, repeat=4))
+    seqs += r.sample(four, ctx.n(80, len(four)))
+    # the same unknown name twice, around a valid one
+    dup = [("unknown-method", "valid", "unknown-method"), ("unknown-method", "unknown-method", "valid")]
+    cases = []
+    for q in seqs:
+        cases.append((q, [entry(k, i) for i, k in enumerate(q)]))
+    for q in dup:
+        cases.append((q + ("same-name",), [entry(k, 0) for k in q]))
+    docs = [(q, ms, service_yaml(spec, ms, bool(i % 2))) for i, (q, ms) in enumerate(cases)]
+    res = ctx.driver.ask([{"op": "c16.validate", "all_methods": meths, "settings": settings_json(doc)} for _, _, doc in docs])
+    deep = set(r.sample(range(len(docs)), min(len(docs), ctx.n(40, 400))))
+    deep |= {i for i, (q, _, _) in enumerate(docs) if len(q) <= 3 and q[-1] == "valid" and any(k != "valid" for k in q)}
+    mo3 = {}
+    order = sorted(deep)
+    for i, mo in zip(order, ctx.driver.ask([{"op": "c16.third_pass", "api": gj, "settings": settings_json(docs[i][2]),
+                                             "proto_package": api0.naming.proto_package, "package": PKG} for i in order])):
+        mo3[i] = mo
+    for i, ((q, ms, doc), mv) in enumerate(zip(docs, res)):
+        shape = ">".join(q)
+        want_reject = any(k != "valid" for k in q if k != "same-name")
+        payload = {"kind": "validate", "spec": spec, "doc": doc, "name": "ordered:" + shape, "want_reject": want_reject,
+                   "key": "bad-method-accepted:ordered"}
+        ctx.case({"validation": "ordered", "entries": list(q)}, distinct_key=["ordered", json.dumps(ms), i % 2])
+        ctx.count("ordered_lists", "len%d:%s" % (len(ms), "all-valid" if not want_reject else
+                                                  ("invalid-before-valid-last" if q[-1] == "valid" or (q[-1] == "same-name" and q[-2] == "valid") else "invalid-last")))
+        ctx.traces += 1
+        ls = [json_format.ParseDict(x, client_pb2.ClientLibrarySettings()) for x in doc["publishing"]["library_settings"]]
+        try:
+            api0.enforce_valid_library_settings(ls)
+            ferr = {}
+        except gapi.ClientLibrarySettingsError as e:
+            ferr = parse_settings_error(e)
+        if bool(ferr) != want_reject:
+            ctx.fail("bad-method-accepted:ordered" if want_reject else "valid-settings-rejected",
+                     f"enforce_valid_library_settings {'accepted' if want_reject else 'rejected'} the allow-list {ms} (entries: {shape})", payload)
+        elif want_reject:
+            # every invalid entry is reported, whatever its position
+            bad = {m for m, k in zip(ms, q) if k != "valid"}
+            named = set(next(iter(ferr.values()))) if ferr and isinstance(next(iter(ferr.values())), dict) else set()
+            if named != bad:
+                ctx.fail("bad-method-accepted:ordered", f"the error names {sorted(named)}, the invalid entries are {sorted(bad)} (entries: {shape})", payload)
+        if mv.get("errors") != ferr:
+            ctx.disagree("T2:c16.validate", f"model validateSettings {mv.get('errors')} != enforce_valid_library_settings {ferr} for {ms}", payload)
+        if i in deep:
+            kind, built = build_selective(spec, files, doc)
+            ctx.traces += 1
+            if kind == "crash":
+                ctx.fail("build-crash:" + built[0], f"API.build raised {built[0]}: {built[1]}", payload)
+                continue
+            if (kind == "rejected") != want_reject:
+                ctx.fail("bad-method-accepted:ordered" if want_reject else "valid-settings-rejected",
+                         f"API.build {'accepted' if want_reject else 'rejected'} the allow-list {ms} (entries: {shape})", payload)
+            mo = mo3[i]
+            if kind == "rejected" and (mo.get("outcome") != "rejected" or mo.get("errors") != built):
+                ctx.disagree("T2:c16.third_pass", f"model {mo.get('outcome')} {mo.get('errors')} vs real rejected {built} for {ms}", payload)
+            if kind == "built" and mo.get("outcome") == "rejected":
+                ctx.disagree("T2:c16.third_pass", f"model rejects {mo.get('errors')}, API.build accepts {ms}", payload)
+
 # --------------------------------------------------------------------------------------------------
 # T3: the emitted selective library vs the full library, the oracle's reachability and the model
 
@@ -1885,7 +1974,8 @@ def run(ctx):
                 "generate_omitted_as_internal in {false,true}; APIs whose services live in several package views (target package "
                 "and proto sub-packages: mixed, twosubs, nested, mixed-nested, sub-only; types shared across views) x subsets "
                 "spanning the views; plus settings probes (unknown method/service, dependency method, "
-                "other version, duplicate version, empty list). distinct by (API, subset, mode) / (API, settings); every "
+                "other version, duplicate version, empty list; allow-lists of 2-4 entries mixing valid / unknown-method / unknown-service / "
+                "other-version / dependency-method entries in every order). distinct by (API, subset, mode) / (API, settings); every "
                 "generated case is non-trivial (selective settings present)")
     ctx.assume("resources are declared on top-level messages or as file-level resource_definition (the generator's own notion of a resource)")
     ctx.assume("the operation service of an extended operation lives in the same file and its polling method does not itself start an "
@@ -1901,6 +1991,7 @@ def run(ctx):
                 run_payload(ctx, blob.get("payload", blob), ctx.rng("corpus", fn))
                 ctx.count("corpus", fn)
     names_t2(ctx)
+    ordered_lists(ctx, ctx.rng("ordered"))
     # ---- T2 at scale
     r = ctx.rng("t2")
     for a in range(ctx.n(36, 640)):
